@@ -13,6 +13,7 @@ import (
 	"math"
 	"os"
 	"path/filepath"
+	"runtime"
 	"runtime/debug"
 	"sort"
 	"strconv"
@@ -237,7 +238,8 @@ func c17DumpFile(path string, limit int) (c *c17Calls) {
 				}
 				return fmt.Sprintf("n=%d sha=%x head=%s", len(strs), h.Sum(nil), strings.Join(hs, ",")), nil
 			})
-			if class == int(core.DatatypeCompound) || class == -1 {
+			_ = class
+			{
 				c17Call(c, "compound:"+p, func() (string, error) {
 					vals, err := o.ReadCompound()
 					if err != nil {
@@ -317,6 +319,8 @@ func c17Compare(base, got *c17Calls) (eq, errs int, diffs []c17Diff) {
 		bv := base.Res[id]
 		gv, ok := got.Res[id]
 		switch {
+		case !ok && c17ParentErred(id, got):
+			errs++ // a value call of an attribute whose list call (Attributes) reported the error
 		case !ok:
 			diffs = append(diffs, c17Diff{ID: id, Intact: c17Short(bv), Kind: "missing"})
 		case strings.HasPrefix(gv, "P:"):
@@ -337,6 +341,18 @@ func c17Compare(base, got *c17Calls) (eq, errs int, diffs []c17Diff) {
 		}
 	}
 	return eq, errs, diffs
+}
+
+// c17ParentErred: id is "attrval:<path>:<i>:<name>" and the Attributes() call of <path> returned an error.
+func c17ParentErred(id string, got *c17Calls) bool {
+	if !strings.HasPrefix(id, "attrval:") {
+		return false
+	}
+	parts := strings.Split(id, ":")
+	if len(parts) < 2 {
+		return false
+	}
+	return got.Res["attrs:"+parts[1]] == c17Err
 }
 
 func c17Watchdog(secs int) {
@@ -708,6 +724,7 @@ func init() {
 			limit, _ = strconv.Atoi(args[1])
 		}
 		c17Watchdog(120)
+		runtime.LockOSThread() // strace counts `when=` per thread: keep every library I/O call on one thread
 		c := c17DumpFile(args[0], limit)
 		out := bufio.NewWriter(os.Stdout)
 		defer out.Flush()
@@ -954,6 +971,7 @@ func init() {
 		if err := json.NewDecoder(bufio.NewReader(os.Stdin)).Decode(&c); err != nil {
 			return err
 		}
+		runtime.LockOSThread() // strace counts `when=` per thread
 		h := &histRun{c: &c, file: args[0], ds: map[string]*hdf5.DatasetWriter{},
 			grp: map[string]*hdf5.GroupWriter{}, dtypeOf: map[string]string{}, strsize: map[string]uint32{}}
 		var createRes opResult
@@ -980,7 +998,13 @@ func init() {
 				results = append(results, opResult{OK: true})
 				continue
 			}
+			if os.Getenv("C17_MARK") != "" {
+				fmt.Fprintf(os.Stderr, "MARK op%d %s %s\n", i, op.Op, op.Path)
+			}
 			results = append(results, h.applySafe(op))
+		}
+		if os.Getenv("C17_MARK") != "" {
+			fmt.Fprintf(os.Stderr, "MARK final_close\n")
 		}
 		var finalClose opResult
 		if h.fw != nil {
